@@ -196,7 +196,30 @@ def rand_pair(rng):
     a, b = rng.choice(cand), rng.choice(cand)
     npts = max(a, 1)
     ncells = b if b <= 40 or rng.random() < 0.3 else rng.choice([1, 2, 3, 4, 5, 6])
-    return cfg, gen_vtu(rng, npts=npts, ncells=ncells)
+    ds = gen_vtu(rng, npts=npts, ncells=ncells)
+    if cfg.fmt == "appended-raw":
+        delimiter_bytes_at_the_edges(rng, ds)
+    return cfg, ds
+
+
+def delimiter_bytes_at_the_edges(rng, ds):
+    """raw appended data: the first or the last array of the appended section is a UInt8 field whose first and last
+    values are bytes the fallback locator of the reader searches for:  < > & _ " ' newline space"""
+    n = len(ds["points"])
+    vals = [rng.choice(SPECIAL) for _ in range(n)]
+    head = rng.sample(SPECIAL, min(n, len(SPECIAL)))
+    vals[:len(head)] = head
+    tail = rng.sample(SPECIAL, min(n, 4))
+    vals[n - len(tail):] = tail
+    ds["pf"] = [f for f in ds["pf"] if f[0] != "edge"]
+    order = [x for x in ds["order"] if x != "PointData"]
+    if rng.random() < 0.5:
+        ds["pf"].insert(0, ["edge", "UInt8", 1, vals])
+        ds["order"] = ["PointData"] + order
+    else:
+        ds["pf"].append(["edge", "UInt8", 1, vals])
+        ds["order"] = order + ["PointData"]
+    ds["edge"] = True
 
 
 # ------------------------------------------------------------------------------------------------ files
@@ -496,7 +519,7 @@ def b64_tie(ctx, n):
 # Model.Codec.read_compressed has a switch for the one place where the pinned code is known to deviate from the statement
 # (finding F-C05a, np.concatenate([]) for zero blocks): "false" = the code as it is.  Set to "true" once /repo returns b""
 # for a header with zero blocks (and use C05_full_statement_after_repair as the property theorem).
-EMPTY_OK = "false"
+EMPTY_OK = os.environ.get("VERIF_C05_EMPTY_OK", "false")      # the environment override exists for repair experiments only
 WHAT_EMPTY = ("F-C05a: a compressed file with an empty data array (zero blocks, e.g. a mesh without cells) cannot be read "
               "(ValueError from np.concatenate([])); the same data set reads fine uncompressed or as ascii")
 WHAT_POLY_RAISE = ("F-C05b: vtu with POLYGON cells of different corner counts: reading raises IndexError "
@@ -526,6 +549,8 @@ def run_case(ctx, ds, cfg, idx, pending, with_model=True):
         ctx.count(f"block_size:{cfg.block_size}")
     ctx.count(f"header:{cfg.header_type}/{'LE' if cfg.byte_order == '<' else 'BE'}")
     ctx.count(f"kind:{ds['kind']}")
+    if ds.get("edge") and cfg.fmt == "appended-raw":
+        ctx.count("raw appended section begins or ends with delimiter bytes (< > & _ quotes newline space)")
     if cfg.fmt != "ascii":
         for r in w.records:
             n = len(r["payload"])
@@ -760,7 +785,7 @@ def run(ctx):
     flush_model(ctx, pending)
     pending = []
     # (b) random (configuration, data set) pairs with array lengths on the boundaries of the configuration
-    n_rand = 1300 if quick else 30000
+    n_rand = 1300 if quick else 32000
     for k in range(n_rand):
         if too_many(ctx):
             break
